@@ -260,6 +260,7 @@ def run(chk):
          'clone what lies below it' % why, fi=us.fi)
 
   annotations_read_fresh_state(chk, 'C04-R1')
+  K.dependency_walk_total(chk, 'C04-R1')
 
   chk.rule('C04-R2', 'call cache: the key depends on the functor and on keys '
            'and values of exactly the relevant bindings (sorted); the cache is '
